@@ -38,7 +38,7 @@ def main(argv):
     # (counter-driven plans and switches whose id the builder invents have no fixed model instance)
     progs = [p for p in corpus.all_programs() if not any(r.get('recseq') for r in p['runs'])
              and not any(prm.get('unnamed') for n in p['nodes'] for prm in n['params'])
-             and not programs.mixed_failures(p)]
+             and not programs.mixed_failures(p) and not programs.is_ambiguous(p)]
     names = {p['name'] for p in progs}
     todo = progs if '--all' in argv else [p for p in progs if p['name'] not in sizes]
     stale = sorted(set(sizes) - names)
